@@ -18,3 +18,10 @@ func TestVerif_C07(t *testing.T) {
 		report(ds.syncRDBFile(bufio.NewReaderSize(bytes.NewReader(file), 4096), []string{"target:6379"}, "auth", "", int64(len(file)), false))
 	})
 }
+
+func TestVerif_C07Race(t *testing.T) {
+	kit07.RaceMain(t, "sync", func(c kit07.Case, file []byte, report func(error)) {
+		ds := syncNewDs(syncConfig{TargetDB: c.TargetDB, SenderCount: 16})
+		report(ds.syncRDBFile(bufio.NewReaderSize(bytes.NewReader(file), 4096), []string{"target:6379"}, "auth", "", int64(len(file)), false))
+	})
+}
